@@ -457,6 +457,19 @@ func inputs() {
 			}
 		}
 	}
+	// colour sweep: every palette index as foreground and background of one cell
+	for i := 0; i < 256; i++ {
+		w.R.Evaluations++
+		fgc, bgc := tcell.PaletteColor(i), tcell.PaletteColor(255-i)
+		s.SetContent(0, 0, rune('A'+i%26), nil, tcell.StyleDefault.Foreground(fgc).Background(bgc))
+		s.Show()
+		pc := pg.cells[[2]int{0, 0}]
+		wf, _ := want24(fgc)
+		wb, _ := want24(bgc)
+		if pc.fg != wf || pc.bg != wb {
+			w.Violation("wasm-palette", fmt.Sprintf("palette colour %d / %d drawn as #%06x on #%06x, want #%06x on #%06x", i, 255-i, pc.fg, pc.bg, wf, wb), nil)
+		}
+	}
 	// paste and focus
 	for _, on := range []bool{true, false} {
 		s.EnablePaste()
